@@ -35,7 +35,7 @@ ASSUMPTIONS = [
     "a memory-admission ValueError under a fusion-forcing optimiser (fuse_all / always_fuse / fuse_only) is allowed by the property and not judged",
 ]
 NSHARDS = {"quick": 16, "thorough": 32}
-PER_SHARD = {"quick": 45, "thorough": 700}
+PER_SHARD = {"quick": 40, "thorough": 260}
 
 
 def shards(tier, seed):
@@ -247,9 +247,9 @@ def finalize(tier, merged):
     return {
         "rule": RULE,
         "floors": [
-            ("(recipe, optimiser) pairs compared with the unoptimised run", c.get("pairs_compared", 0), 2500 if tier == "quick" else 60000),
-            ("pairs where the optimiser changed the DAG", c.get("dag_changed", 0), 800 if tier == "quick" else 20000),
-            ("requested arrays read back from storage", c.get("materialised_checked", 0), 1500 if tier == "quick" else 30000),
+            ("(recipe, optimiser) pairs compared with the unoptimised run", c.get("pairs_compared", 0), 2200 if tier == "quick" else 25000),
+            ("pairs where the optimiser changed the DAG", c.get("dag_changed", 0), 700 if tier == "quick" else 9000),
+            ("requested arrays read back from storage", c.get("materialised_checked", 0), 1300 if tier == "quick" else 15000),
         ],
         "assumptions": ASSUMPTIONS,
     }
